@@ -99,7 +99,8 @@ def check_cases(ctx, cases):
         ctx.count("max_parents=%d" % min(8, max([len(r["parents"]) for r in log] or [0])))
         inp = [{"id": idb(r["id"]), "parents": [idb(p) for p in r["parents"]], "extra": i} for i, r in enumerate(log)]
         try:
-            out = list(toposort(inp))
+            with ctx.time_limit(60):
+                out = list(toposort(inp))
         except (Exception, RecursionError) as e:
             ctx.fail(case, f"toposort raises {type(e).__name__} on a valid log of {len(log)} revisions", "raises:" + type(e).__name__)
             impls.append(None)
